@@ -5,7 +5,7 @@
 # them with `rm -rf /root/w/st` when done). Neither /repo nor /verif is touched.
 set -u
 P=$1; D=$2; T=${3:-quick}
-S=/root/w/st
+S=${ST:-/root/w/st}
 mkdir -p $S
 if [ -d $S/verif/.git ]; then git -C $S/verif fetch -q /verif main && git -C $S/verif reset -q --hard FETCH_HEAD; else git clone -q /verif $S/verif; fi
 if [ -d $S/repo/.git ]; then git -C $S/repo fetch -q /repo main && git -C $S/repo reset -q --hard FETCH_HEAD && git -C $S/repo clean -fdq -e target; else git clone -q /repo $S/repo; fi
